@@ -20,7 +20,7 @@ NPROC = int(os.environ.get("VERIF_JOBS", "16"))
 GOENV = dict(os.environ, GOFLAGS="-mod=mod", GOPROXY="off", GOSUMDB="off", GOTOOLCHAIN="local",
              GOCACHE=os.path.join(BUILD, "gocache"))
 
-HARNESS_CMDS = ["codec", "session", "stream", "extract", "stress", "race", "timing", "lifecycle"]
+HARNESS_CMDS = ["codec", "session", "stream", "extract", "stress", "race", "timing", "lifecycle", "gen"]
 
 TRUSTED_BASE = [
     "Coq 8.16.1 kernel (coqc; vm_compute used for finite-table facts; native_compute not used)",
@@ -134,6 +134,8 @@ def ensure_built(verbose=False):
             if cmd == "race":
                 args.append("-race")
             sh(args + ["-o", os.path.join(BIN, cmd), "./cmd/" + cmd], cwd=HARNESS, env=GOENV, timeout=900)
+        # the generator under test, built from the working tree
+        sh(["go", "build", "-o", os.path.join(BIN, "fixgen"), "./cmd/fixgen"], cwd=REPO, env=GOENV, timeout=900)
         # 2. regenerated Coq inputs
         regen()
         # 3. Coq development (full .vo build)
@@ -146,7 +148,7 @@ def ensure_built(verbose=False):
             # 4. extraction + OCaml driver
             ex = os.path.join(COQ, "extract")
             sh("timeout 600 coqc -Q .. SF Extract.v", cwd=ex, timeout=700)
-            sh("ocamlfind ocamlopt -O3 -w -a model.mli model.ml driver.ml -o model_driver 2>&1 | grep -v 'options are only relevant' ; test -x model_driver",
+            sh("rm -f model_driver; ocamlfind ocamlopt -O3 -w -a model.mli model.ml driver.ml -o model_driver 2>&1 | grep -v 'options are only relevant' ; test -x model_driver",
                cwd=ex, timeout=600)
             with open(stamp, "w") as f:
                 f.write(h)
